@@ -21,7 +21,7 @@ func caseWitness(m *matSpec, n, fixed ref.V, fixedKind, mode string) map[string]
 
 func materialSections(r *vlib.Run) {
 	nSamples := r.N(200000, 2000000)
-	r.Section("materials", r.N(1100, 2400), vlib.SectionOpts{}, func(c *vlib.Case) {
+	r.Section("materials", r.N(900, 2400), vlib.SectionOpts{}, func(c *vlib.Case) {
 		rng := c.Rng
 		kind := matKinds[c.Index%len(matKinds)]
 		m := randMat(rng, kind, 1, 0)
